@@ -144,6 +144,13 @@ func dumpDB(db *laptimer.DB) string {
 
 func cvConvert(toks []string, withStart bool) string {
 	var out string
+	// the decoder builds instants with time.Unix, i.e. in the process's local zone: vary it
+	if z := cvField(toks, "Z"); z != "" && z != "0" {
+		off, _ := strconv.Atoi(z)
+		old := time.Local
+		time.Local = time.FixedZone("verif", off)
+		defer func() { time.Local = old }()
+	}
 	cls, _ := classify(func() error {
 		c, sess := taDecode([]byte(unhexStr(cvField(toks, "X"))))
 		if c == "panic" {
@@ -348,7 +355,9 @@ func genCV(cfg *config, r *rng, i int, s *sink) string {
 	}
 	s.count("cv.op." + op)
 	s.count("cv.pred." + pr)
-	return fmt.Sprintf("%s T=%s V=%s G=%s N=%s DS=%d PF=%d SD=%s PR=%s O=%s X=%s", op,
+	zone := pick(r, []int{0, 0, 7200, -28800, 19800, 50400, -43200, 3600})
+	s.count(fmt.Sprintf("cv.zone.%d", zone))
+	return fmt.Sprintf("%s Z=%d T=%s V=%s G=%s N=%s DS=%d PF=%d SD=%s PR=%s O=%s X=%s", op, zone,
 		hexStr(pick(r, []string{"Goodwood", "", "Brands <Hatch>"})), hexStr(pick(r, []string{"", "", "'19 McLaren 720s"})),
 		hexTags(r), hexStr(pick(r, []string{"", "a note", "line1\nline2"})), r.intn(4), r.intn(5), sd, pr, oracle, hexStr(text))
 }
